@@ -236,3 +236,52 @@ func estimateGas(span uint64, symValue bool) {
 		verif.Assert("estimate-covers-head-room", resp.Gas >= 21000+sc.MinGas)
 	}
 }
+
+// H_C08_3b_CallPredictsDelivery: eth_call (the real Keeper.EthCall on a query context: no ante handler ran, the
+// "sender paid the fee" flag is not set) against the same call DELIVERED as the next transaction on the same
+// state (fee deducted and flag set by the ante branch, then the real ApplyMessageWithConfig with commit): for a
+// contract that reads neither block context nor the sender's balance, and a sender that can afford fee + value
+// in both, the two report the same gas used (for the same gas limit), VM error, return data and number of logs -
+// also when the execution earns a storage refund.
+func H_C08_3b_CallPredictsDelivery() {
+	model.ResetScripts()
+	model.ResetTxs()
+	nonce := uint64(5)
+	w1 := NewWorld(nonce)
+	t := NewTx("tx", DestContract)
+	t.Nonce = nonce
+	sc := model.NewScript("script", 1, []model.ActionKind{model.ActSStore, model.ActLog, model.ActTransferOut}, []common.Address{ThirdAddr, PlainAddr})
+	model.Scripts[ContractAddr] = sc
+	model.CreateScript = sc
+	w2 := &World{SenderBal: w1.SenderBal, ContrBal: w1.ContrBal, ContrBalO: w1.ContrBalO, ThirdBal: w1.ThirdBal, Rest: w1.Rest, BaseFee: w1.BaseFee}
+	w2.Build(nonce)
+	// the sender can pay gasLimit x feeCap + value (otherwise admission / the transfer check legitimately differ)
+	need := new(big.Int).Add(new(big.Int).Mul(new(big.Int).SetUint64(t.GasLimit), t.FeeCap()), t.Value)
+	verif.Assume(w1.SenderBal.Cmp(need) >= 0)
+	verif.Assume(t.GasLimit >= 21000 && t.GasLimit <= 25_000_000)
+	// an admissible transaction: its fee cap covers the base fee (eth_call waives this for zero prices on purpose)
+	verif.Assume(t.FeeCap().Cmp(w1.BaseFee) >= 0)
+	var r1 *evmtypes.MsgEthereumTxResponse
+	var e1 error
+	p1 := verif.Try(func() { r1, e1 = w1.E.EK.EthCall(w1.E.Ctx, ethCallRequest(t, 25_000_000)) })
+	r2 := w2.Deliver(t)
+	verif.Assert("eth-call-does-not-panic", !p1)
+	if p1 || r2.Panicked {
+		return
+	}
+	if r2.AnteRejected {
+		return
+	}
+	verif.Assert("call-fails-iff-delivery-is-refused", (e1 != nil) == r2.CoreErr)
+	if e1 != nil || r2.CoreErr {
+		verif.Reach("refused-by-both")
+		return
+	}
+	verif.Assert("same-gas-used", r1.GasUsed == r2.Resp.GasUsed)
+	verif.Assert("same-vm-error", r1.VmError == r2.Resp.VmError)
+	verif.Assert("same-return-data", string(r1.Ret) == string(r2.Resp.Ret))
+	verif.Reach("predicted")
+	if sc.Outcome == model.OutSuccess && len(sc.Actions) == 1 && sc.Actions[0].Kind == model.ActSStore {
+		verif.Reach("predicted-with-refund")
+	}
+}
